@@ -17,6 +17,9 @@ import re
 from lib import rsx
 from lib.rsx import ExtractError
 from lib.verus_engine import Injector, Obligation
+from lib.weave import weave, GMARK, LostAnchor
+import os
+HERE = os.path.dirname(os.path.abspath(__file__))
 
 CORE_RS = 'fidget-core/src/render/mod.rs'
 LIB_RS = 'fidget-raster/src/lib.rs'
@@ -134,9 +137,45 @@ def build(repo, trace):
         trace.items.append((CORE_RS, 'TileSizes::' + nm))
     for nm in ('new', 'last'):
         trace.items.append((LIB_RS, 'TileSizesRef::' + nm))
+    # ---- the block of render_tiles that builds the list of root tiles, as a function of its own (R-block)
+    tl = ''
+    try:
+        i, j, k = rsx.find_fn(lib, 'render_tiles', 0, None)
+        body = lib[j + 1:k - 1]
+        if body.count('let mut tiles = vec![];') != 1:
+            raise ExtractError('render_tiles: start of the tile-list block not found')
+        m2 = re.search(r'\n\s*let mut rh = RenderHandle::new\(shape\);', body)
+        if not m2:
+            raise ExtractError('render_tiles: end of the tile-list block not found')
+        block = body[body.index('let mut tiles = vec![];'):m2.start()]
+        block, n = re.subn(r' *let (width|height) = render_config\.(width|height)\(\) as usize;\n', '', block)
+        if n != 2:
+            raise ExtractError('render_tiles: the two lines that read the image size changed')   # they become the parameters of the block
+        block = sub_once(block, 'vec![]', 'Vec::new()', 'render_tiles')
+        block, n = re.subn(r'\btile_sizes\[0\]', '*tile_sizes.index(0)', block)
+        trace.fire('R-index', n)
+        for var, end in (('i', 'nx_'), ('j', 'ny_')):
+            m = re.search(r'( *)for %s in 0\.\.(\w+)\.div_ceil\((\w+)\) \{\n' % var, block)
+            if not m:
+                raise ExtractError('render_tiles: loop over %s changed' % var)
+            block = block[:m.start()] + '%slet %s = div_ceil_usize(%s, %s);   // R-hoist-range, R-divceil\n%sfor %s in 0..%s {\n' % (m.group(1), end, m.group(2), m.group(3), m.group(1), var, end) + block[m.end():]
+            trace.fire('R-hoist-range'); trace.fire('R-divceil')
+        real = "pub fn tile_list(tile_sizes: TileSizesRef<'_>, width: usize, height: usize) -> (tiles: Vec<Tile<2>>)\n{\n    " + block.rstrip() + '\n    tiles\n}'
+        tm = open(os.path.join(HERE, 'tiles_tmpl_list.rs')).read()
+        tl, m_, n_ = weave(tm, real, 'render_tiles[tile list]')
+        if m_ != n_:
+            trace.fire('weave-unmatched-lines', n_ - m_)
+        tstruct = rsx.get_item(lib, r'^struct Tile<const N: usize>', 0, 'struct Tile')
+        if 'corner: OPoint<usize, Const<N>>,' not in tstruct:
+            raise ExtractError('struct Tile changed')
+        trace.fire('R-block')
+        trace.items.append((LIB_RS, 'render_tiles: the block that builds the list of root tiles (as the function tile_list of its own; the two lines reading the image size become its parameters)'))
+    except (ExtractError, LostAnchor) as e:
+        trace.lost.setdefault('tile_list', []).append('not extracted: %s' % e)
+        tl = ''
     trace.drop('everything else of both files; TileSizes::iter and the Index impls are represented by the rewrite rules above')
     text = ('use vstd::prelude::*;\nverus! {\nglobal size_of usize == 8;\n' + STATIC + '\nimpl TileSizes {\n' + f_new + '\n\n' + f_len + '\n}\n\n'
-            + "impl<'a> TileSizesRef<'a> {\n" + f_rnew + '\n\n' + f_last + '\n}\n' + '\n} // verus!\nfn main() {}\n')
+            + "impl<'a> TileSizesRef<'a> {\n" + f_rnew + '\n\n' + f_last + '\n}\n' + (open(os.path.join(HERE, 'tiles_static_list.rs')).read() + '\n' + tl + '\n' if tl else '') + '\n} // verus!\nfn main() {}\n')
     inj = Injector(text, trace)
     inj.spec('TileSizes::new', 'r: Result<Self, TileSizeError>', '\n        ensures r is Ok <==> order_ok(sizes@), r is Ok ==> r->Ok_0.0@ == sizes@\n')
     inj.loop_inv('TileSizes::new', 'for i in 1..sizes.len()', '            invariant sizes@.len() >= 1, forall|j: int| 1 <= j < i ==> #[trigger] pair_ok(sizes@, j),')
@@ -150,4 +189,7 @@ def build(repo, trace):
     inj.spec('TileSizesRef::last', 'r: usize', '\n        requires self.0@.len() >= 1\n        ensures r == self.0@[self.0@.len() - 1]\n')
     obls = [Obligation('tiles::' + f, 'tiles', f, props=PROPS) for f in ('TileSizes::new', 'TileSizes::len', 'TileSizesRef::new', 'TileSizesRef::last')]
     obls += [Obligation('tiles::' + f, 'tiles', f, props=PROPS, kind='lemma') for f in ('position_lt', 'is_multiple_of', 'saturating_sub', 'lemma_order_gives_steps')]
-    return {'texts': {'base': inj.s}, 'obligations': obls, 'canary_fns': ['TileSizes::new', 'TileSizesRef::new'], 'verus_args': ['--edition=2024']}
+    if tl:
+        obls.append(Obligation('tiles::render_tiles[tile list]', 'tiles', 'tile_list', props=PROPS, rlimit=50, note='one tile per root tile of the image: aligned, starting inside the image, none twice, every pixel covered'))
+        obls += [Obligation('tiles::' + f, 'tiles', f, props=PROPS, kind='lemma') for f in ('div_ceil_usize', 'lemma_div_ceil', 'lemma_grid')]
+    return {'texts': {'base': inj.s}, 'obligations': obls, 'canary_fns': ['TileSizes::new', 'TileSizesRef::new'] + (['tile_list'] if tl else []), 'verus_args': ['--edition=2024']}
